@@ -66,6 +66,20 @@ theorem findSub_root (t : Tree) : findSub t.pid t = some t := by
   cases t with
   | node q cs => simp [findSub, Tree.pid]
 
+theorem groupBelowList_sub : (cs : List GTree) → ∀ p, p ∈ groupBelowList cs → p ∈ allPidsList (forgetList cs)
+  | [], p, h => by simp [groupBelowList] at h
+  | .node q true cs' :: cs, p, h => by
+      simp only [groupBelowList] at h
+      simp only [forgetList, allPidsList, List.mem_append]
+      exact Or.inr (groupBelowList_sub cs p h)
+  | .node q false cs' :: cs, p, h => by
+      simp only [groupBelowList, List.mem_cons, List.mem_append] at h
+      simp only [forgetList, allPidsList, GTree.forget, allPids, List.mem_append, List.mem_cons]
+      rcases h with h | h | h
+      · exact Or.inl (Or.inl h)
+      · exact Or.inl (Or.inr (groupBelowList_sub cs' p h))
+      · exact Or.inr (groupBelowList_sub cs p h)
+
 theorem joinSlices_sum (fuel remaining : Nat) (h : remaining / 600 < fuel) :
     (joinSlices fuel remaining).foldl (· + ·) 0 = remaining ∧ ∀ x ∈ joinSlices fuel remaining, 0 < x ∧ x ≤ 600 := by
   induction fuel generalizing remaining with
